@@ -58,7 +58,7 @@ theorem readSeq_spec (h : H) (bl : List Block) (hi : Inv h bl) (ho : (pend h bl)
     simp only [ho, or_true, if_true, List.nil_append] at hr hp
     obtain ⟨h2, bl2, hi2, hf2, hr2, hp2⟩ := ih h1 bl1 hi1 (by rw [hp])
     refine ⟨h2, bl2, hi2, hf.trans hf2, ?_, ?_⟩
-    · simp only [readSeq, readData, hr, hr2, hp, chunks, List.map_cons]
+    · simp only [readSeq, readData, enterReadData_data h hi.st, hr, hr2, hp, chunks, List.map_cons]
     · rw [hp2, hp]; simp [List.drop_drop]
 
 /-- The format's own skip hook, when there is one, answers OK (or EOF, which
@@ -160,7 +160,7 @@ def consume (h : H) (c : Consumption) : H :=
 
 theorem act_frame (h : H) (a : Act) : Frame h (act h a) := by
   cases a with
-  | read n => exact (readLoop_frame h n []).2
+  | read n => exact (enterReadData_frame h).trans (readLoop_frame (enterReadData h) n []).2
   | block => exact dataBlock_frame h
 
 theorem runActs_frame (h : H) (as : List Act) : Frame h (runActs h as) := by
